@@ -6,6 +6,7 @@ pub mod c04;
 pub mod c18;
 pub mod c20;
 pub mod codec;
+pub mod connmon;
 
 pub fn dispatch(ctx: &Ctx) -> Option<Report> {
     Some(match ctx.prop.as_str() {
@@ -14,6 +15,7 @@ pub fn dispatch(ctx: &Ctx) -> Option<Report> {
         "C04" => c04::run(ctx),
         "C18" => c18::run(ctx),
         "C20" => c20::run(ctx),
+        "C05" | "C06" | "C07" | "C08" | "C12" | "C13" | "C14" | "C15" | "C19" => return connmon::run(ctx),
         _ => return None,
     })
 }
